@@ -18,7 +18,7 @@ CONSTANTS
   CUser <- CUser_rich
   LoginSt <- Login_all
   DroneSt <- Drone_all
-  GenN = 20
+  GenN = 400
   GenM = 4
 INIT GenInit
 NEXT GenNext
